@@ -955,5 +955,81 @@ theorem fullRead_any (E : Bytes → Bytes → Bytes) (s : State) (file : Bytes) 
       rw [Int.toNat_natCast]
       exact fullRead_spec E s file start src N g r hr offset c.toNat (by omega) (by omega) (by omega) (by omega)
 
+
+/-! ### work bound of the fully-decrypted read (C19): chunks planned ≤ what the file holds -/
+
+theorem addChunk_length (l : List ((Nat × Nat) × Nat × Nat)) (key : Nat × Nat) (off : Nat) :
+    (addChunk l key off).length ≤ l.length + 1 := by
+  unfold addChunk
+  split
+  · simp
+  · simp
+
+/-- the plan never has more pieces than chunks -/
+theorem plan_length (s : State) (a : Nat) : ∀ n, (plan s a n).length ≤ n := by
+  intro n
+  induction n with
+  | zero => simp [plan]
+  | succ n ih =>
+    have : plan s a (n + 1) = addChunk (plan s a n) (chunkKey s (a + 0x200 * n)).1 (chunkKey s (a + 0x200 * n)).2 := by
+      unfold plan
+      rw [List.range_succ, List.map_append, List.foldl_append]
+      rfl
+    rw [this]
+    exact Nat.le_trans (addChunk_length _ _ _) (by omega)
+
+
+/-- the chunk count is bounded by the file, whatever the header's content size and whatever size is asked for -/
+theorem fullChunks_bound (rsize fileLen start offset : Nat) (size : Int) :
+    fullChunks rsize fileLen start offset size * 0x200 ≤ fileLen + 0x1FF := by
+  unfold fullChunks
+  dsimp only
+  generalize hm : offset % 0x200 = m
+  have hml : m ≤ offset := by rw [← hm]; exact Nat.mod_le _ _
+  generalize hs1 : (if (offset : Int) + size > rsize then (rsize : Int) - offset else size) = s1
+  generalize hs2 : (if (offset : Int) + s1 > (fileLen : Int) - start then (fileLen : Int) - start - offset else s1) = s2
+  have h2 : (offset : Int) + s2 ≤ fileLen := by rw [← hs2]; split <;> omega
+  clear hs1 hs2 hm
+  by_cases h : s2 ≤ 0
+  · rw [if_pos h, Nat.zero_mul]; exact Nat.zero_le _
+  · rw [if_neg h]
+    by_cases h' : s2 + (m : Int) ≤ 0
+    · rw [if_pos h', Nat.zero_mul]; exact Nat.zero_le _
+    · rw [if_neg h']
+      omega
+
+theorem fullRead_plan_aux {α : Type} (f : Nat → Nat → Option (Nat × Nat) → Nat → α) (z : α) (m : Nat) (g : Nat → Option (Nat × Nat)) (s2 : Int) :
+    ∃ before cutEnd lastKey,
+      (if s2 ≤ 0 then z
+        else f m (512 - ((s2 + (m : Int)) % 512).toNat)
+               (g (if s2 + (m : Int) ≤ 0 then 0 else ((s2 + (m : Int)).toNat + 511) / 512))
+               (if s2 + (m : Int) ≤ 0 then 0 else ((s2 + (m : Int)).toNat + 511) / 512)) =
+        if (if s2 ≤ 0 then 0 else if s2 + (m : Int) ≤ 0 then 0 else ((s2 + (m : Int)).toNat + 511) / 512) = 0 then z
+        else f before cutEnd lastKey
+               (if s2 ≤ 0 then 0 else if s2 + (m : Int) ≤ 0 then 0 else ((s2 + (m : Int)).toNat + 511) / 512) := by
+  by_cases h : s2 ≤ 0
+  · exact ⟨0, 0, none, by rw [if_pos h, if_pos h]; rfl⟩
+  · refine ⟨m, (512 - ((s2 + (m : Int)) % 512).toNat),
+      (g (if s2 + (m : Int) ≤ 0 then 0 else ((s2 + (m : Int)).toNat + 511) / 512)), ?_⟩
+    have h' : ¬ (s2 + (m : Int) ≤ 0) := by omega
+    simp only [if_neg h, if_neg h']
+    have h1 : 1 ≤ (s2 + (m : Int)).toNat := by omega
+    have : ¬ ((s2 + (m : Int)).toNat + 511) / 512 = 0 := by omega
+    rw [if_neg this]
+
+/-- `fullRead` is the assembly of a plan of exactly `fullChunks` chunks (nothing when that is 0) -/
+theorem fullRead_plan (E : Bytes → Bytes → Bytes) (s : State) (file : Bytes) (start offset : Nat) (size : Int) (r : Region)
+    (hr : s.region? secFull = some r) :
+    ∃ before cutEnd lastKey,
+      fullRead E s file start offset size =
+        if fullChunks r.size file.length start offset size = 0 then .ok []
+        else assemble (getData E s file start) before cutEnd lastKey
+               (plan s (offset - offset % 0x200) (fullChunks r.size file.length start offset size)) := by
+  unfold fullRead fullChunks
+  rw [hr]
+  dsimp only
+  exact fullRead_plan_aux (fun b c l n => assemble (getData E s file start) b c l (plan s (offset - offset % 512) n)) (.ok []) (offset % 512)
+    (fun n => Option.map (fun c => (chunkKey s c).fst) (List.map (fun i => offset - offset % 512 + 512 * i) (List.range n)).getLast?) _
+
 end Ncch
 end Pyctr
